@@ -16,18 +16,24 @@ def addEdgeOf (und : Bool) (h : G L) (i j : Nat) (l : L) : G L × Res Unit :=
 def getEdgeLabelOf (und : Bool) (g : G L) (i j : Nat) : Res L :=
   if und then g.uGetEdgeLabel i j true else g.dGetEdgeLabel i j true
 
+/-- inner loop body: neighbour `j` of `i` -/
+def subInnerStep (und : Bool) (g : G L) (S : List Nat) (f : Nat → Nat) (i : Nat) (r : Res (G L)) (j : Nat) : Res (G L) :=
+  if S.contains j then
+    match getEdgeLabelOf und g i j with
+    | .ok l => chain r (fun h => addEdgeOf und h (f i) (f j) l)
+    | .threw x => r.bind (fun _ => .threw x)
+    | .ub => .ub
+  else r
+
+/-- outer loop body: vertex `i` of the set -/
+def subOuterStep (und : Bool) (g : G L) (S : List Nat) (f : Nat → Nat) (r : Res (G L)) (i : Nat) : Res (G L) :=
+  r.bind (fun h =>
+    if !g.inR i then .threw .oor
+    else (g.nb i).foldl (subInnerStep und g S f i) (.ok h))
+
 /-- shared loop: for i in ord { assert i; for j in nb i, j ∈ S: sub.addEdge(f i, f j, label) } -/
 def subLoop (und : Bool) (g : G L) (ord : List Nat) (f : Nat → Nat) (init : G L) : Res (G L) :=
-  ord.foldl (fun r i => r.bind (fun h =>
-      if !g.inR i then .threw .oor else
-      (g.nb i).foldl (fun r j =>
-        if ord.contains j then
-          match getEdgeLabelOf und g i j with
-          | .ok l => chain r (fun h => addEdgeOf und h (f i) (f j) l)
-          | .threw x => r.bind (fun _ => .threw x)
-          | .ub => .ub
-        else r) (.ok h)))
-    (.ok init)
+  ord.foldl (subOuterStep und g ord f) (.ok init)
 
 def getSubgraph (und : Bool) (g : G L) (ord : List Nat) : Res (G L) :=
   subLoop und g ord id (G.new g.labelled g.size)
